@@ -4,6 +4,8 @@ import LinOp.C01.ProofsC
 import LinOp.C01.ProofsD
 import LinOp.C01.ProofsE
 import LinOp.C01.ProofsF
+import LinOp.C01.ProofsH
+import LinOp.C01.ProofsG
 /-!
 C01 — every operator acts exactly as the dense matrix it represents.  Property theorems only.
 
@@ -799,5 +801,278 @@ theorem blockSwap_differs_nonadjacent : blockSwapPerm 3 0 ≠ blockMovePerm 3 0 
 theorem blockSwap_same_adjacent : blockSwapPerm 2 0 = blockMovePerm 2 0 ∧ blockSwapPerm 3 1 = blockMovePerm 3 1 ∧
     blockSwapPerm 3 2 = blockMovePerm 3 2 := by
   decide
+
+end LinOp.C01
+
+/-! # part H — operator TREES of arbitrary depth (`LinOp/C01/OpTree.lean`): structural induction over the nesting grammar
+dense | diag | toeplitz | sum | matmul | constMul | addedDiag | root | transpose | kron | blockDiag | blockInter | sumBatch |
+catRows | catCols | masked | interp, where every sub-operator is again a tree whose own structured `_matmul`/`_t_matmul`
+is what the outer class calls. -/
+namespace LinOp.C01
+open LinOp
+section treeH
+variable {α : Type} [CommSemiring α]
+
+/-- The structured evaluator of every tree denotes the tree's dense semantics: by structural induction, using the
+one-level theorem of the outermost class on the dense semantics of the sub-trees. -/
+theorem eval_tree_denotes : ∀ {n m : Nat} (t : Op α n m), t.eval.Denotes t.denseSem := by
+  intro n m t
+  induction t with
+  | dense A => exact ofDense_denotes A
+  | diag d =>
+    refine ⟨fun c X => diag_matmul d X, fun c Y => ?_⟩
+    show diagMatmul d Y = Mat.mul (Mat.transpose (Mat.diag d)) Y
+    rw [diag_symm]; exact diag_matmul d Y
+  | toeplitz col =>
+    refine ⟨fun c X => toeplitz_circulant_embedding col col X, fun c Y => ?_⟩
+    show toeplitzMatmul col col Y = Mat.mul (Mat.transpose (toeplitzDense col col)) Y
+    rw [← toeplitz_symm_transpose]; exact toeplitz_circulant_embedding col col Y
+  | sum a b iha ihb =>
+    refine ⟨fun c X => ?_, fun c Y => ?_⟩
+    · show (fun i col => a.eval.mm X i col + b.eval.mm X i col) = _
+      rw [iha.1, ihb.1]; exact sum_matmul _ _ X
+    · show (fun i col => a.eval.tmm Y i col + b.eval.tmm Y i col) = _
+      rw [iha.2, ihb.2]; exact sum_matmul _ _ Y
+  | matmul a b iha ihb =>
+    refine ⟨fun c X => ?_, fun c Y => ?_⟩
+    · show a.eval.mm (b.eval.mm X) = _
+      rw [ihb.1, iha.1]; exact (C.mul_assoc _ _ X).symm
+    · show b.eval.tmm (a.eval.tmm Y) = Mat.mul (Mat.transpose (Mat.mul a.denseSem b.denseSem)) Y
+      rw [iha.2, ihb.2, matmulOp_transpose]; exact (C.mul_assoc _ _ Y).symm
+  | constMul a k iha =>
+    refine ⟨fun c X => ?_, fun c Y => ?_⟩
+    · show (fun i col => a.eval.mm X i col * k) = _
+      rw [iha.1]; exact constMul_matmul _ k X
+    · show (fun i col => a.eval.tmm Y i col * k) = _
+      rw [iha.2]; exact constMul_matmul _ k Y
+  | addedDiag a d iha =>
+    refine ⟨fun c X => ?_, fun c Y => ?_⟩
+    · show (fun i col => a.eval.mm X i col + d i * X i col) = _
+      rw [iha.1]; exact addedDiag_matmul _ d X
+    · show (fun i col => a.eval.tmm Y i col + d i * Y i col) = Mat.mul (Mat.transpose (Mat.add a.denseSem (Mat.diag d))) Y
+      rw [iha.2, sum_transpose, diag_symm]; exact addedDiag_matmul _ d Y
+  | root a iha =>
+    have h : ∀ c (X : Mat α _ c), a.eval.mm (a.eval.tmm X) = Mat.mul (rootDense a.denseSem) X := by
+      intro c X; rw [iha.2, iha.1]; exact root_matmul _ X
+    refine ⟨h, fun c Y => ?_⟩
+    show a.eval.mm (a.eval.tmm Y) = Mat.mul (Mat.transpose (rootDense a.denseSem)) Y
+    rw [root_symm]; exact h c Y
+  | transpose a iha => exact ⟨iha.2, iha.1⟩
+  | kron a b iha ihb =>
+    refine ⟨fun c X => kron_two_step _ _ _ _ iha.1 ihb.1 X, fun c Y => ?_⟩
+    show _ = Mat.mul (Mat.transpose (kron2Dense a.denseSem b.denseSem)) Y
+    rw [kron2Dense_transpose]
+    exact kron_two_step _ _ _ _ iha.2 ihb.2 Y
+  | blockDiag blocks ih =>
+    refine ⟨fun c X => ?_, fun c Y => ?_⟩
+    · show blockDiagRemove (fun b => (blocks b).eval.mm (blockDiagAdd X b)) = _
+      have : (fun b => (blocks b).eval.mm (blockDiagAdd X b)) = bmm (fun b => (blocks b).denseSem) (blockDiagAdd X) := by
+        funext b; exact (ih b).1 c _
+      rw [this]; exact blockDiag_matmul _ X
+    · show blockDiagRemove (fun b => (blocks b).eval.tmm (blockDiagAdd Y b)) = Mat.mul (Mat.transpose (blockDiagDense _)) Y
+      have : (fun b => (blocks b).eval.tmm (blockDiagAdd Y b)) = bmm (blockTranspose fun b => (blocks b).denseSem) (blockDiagAdd Y) := by
+        funext b; exact (ih b).2 c _
+      rw [this, ← blockDiag_transpose]; exact blockDiag_matmul _ Y
+  | blockInter blocks ih =>
+    refine ⟨fun c X => ?_, fun c Y => ?_⟩
+    · show blockInterRemove (fun b => (blocks b).eval.mm (blockInterAdd X b)) = _
+      have : (fun b => (blocks b).eval.mm (blockInterAdd X b)) = bmm (fun b => (blocks b).denseSem) (blockInterAdd X) := by
+        funext b; exact (ih b).1 c _
+      rw [this]; exact blockInter_matmul _ X
+    · show blockInterRemove (fun b => (blocks b).eval.tmm (blockInterAdd Y b)) = Mat.mul (Mat.transpose (blockInterDense _)) Y
+      have : (fun b => (blocks b).eval.tmm (blockInterAdd Y b)) = bmm (blockTranspose fun b => (blocks b).denseSem) (blockInterAdd Y) := by
+        funext b; exact (ih b).2 c _
+      rw [this, ← blockInter_transpose]; exact blockInter_matmul _ Y
+  | sumBatch blocks ih =>
+    refine ⟨fun c X => ?_, fun c Y => ?_⟩
+    · show sumBatchRemove (fun b => (blocks b).eval.mm X) = _
+      have : (fun b => (blocks b).eval.mm X) = bmm (fun b => (blocks b).denseSem) (sumBatchAdd X) := by
+        funext b; exact (ih b).1 c _
+      rw [this]; exact sumBatch_matmul _ X
+    · show sumBatchRemove (fun b => (blocks b).eval.tmm Y) = Mat.mul (Mat.transpose (sumBatchDense _)) Y
+      have : (fun b => (blocks b).eval.tmm Y) = bmm (blockTranspose fun b => (blocks b).denseSem) (sumBatchAdd Y) := by
+        funext b; exact (ih b).2 c _
+      rw [this]; exact sumBatch_matmul _ Y
+  | catRows a b iha ihb =>
+    refine ⟨fun c X => ?_, fun c Y => ?_⟩
+    · show catRows (a.eval.mm X) (b.eval.mm X) = _
+      rw [iha.1, ihb.1]; exact cat_matmul_rows _ _ X
+    · show (fun i col => a.eval.tmm (topRows Y) i col + b.eval.tmm (botRows Y) i col) = Mat.mul (Mat.transpose (catRows _ _)) Y
+      rw [iha.2, ihb.2, catRows_transpose, catCols_mul]
+  | catCols a b iha ihb =>
+    refine ⟨fun c X => ?_, fun c Y => ?_⟩
+    · show (fun i col => a.eval.mm (topRows X) i col + b.eval.mm (botRows X) i col) = _
+      rw [iha.1, ihb.1]; exact (catCols_mul _ _ X).symm
+    · show catRows (a.eval.tmm Y) (b.eval.tmm Y) = Mat.mul (Mat.transpose (catCols _ _)) Y
+      rw [iha.2, ihb.2, catCols_transpose]; exact cat_matmul_rows _ _ Y
+  | masked a rmask cmask iha =>
+    refine ⟨fun c X => ?_, fun c Y => ?_⟩
+    · show maskRows rmask (a.eval.mm (maskExpand cmask X)) = _
+      rw [iha.1]; exact masked_matmul _ rmask cmask X
+    · show maskRows cmask (a.eval.tmm (maskExpand rmask Y)) = Mat.mul (Mat.transpose (maskedDense _ rmask cmask)) Y
+      rw [iha.2, ← masked_transpose]; exact masked_matmul _ cmask rmask Y
+  | interp base lidx lval ridx rval ih =>
+    refine ⟨fun c X => ?_, fun c Y => ?_⟩
+    · show leftInterp lidx lval (base.eval.mm (leftTInterp ridx rval X)) = _
+      rw [ih.1]; exact interp_matmul _ lidx lval ridx rval X
+    · show leftInterp ridx rval (base.eval.tmm (leftTInterp lidx lval Y)) = Mat.mul (Mat.transpose (interpDense _ lidx lval ridx rval)) Y
+      rw [ih.2, ← interp_transpose]; exact interp_matmul _ ridx rval lidx lval Y
+
+
+/-- **Tree refinement** — for every tree `t` of any depth and every right-hand side, the structured `_matmul`
+(outer class calling the structured routines of its sub-operators, recursively) multiplies by the dense semantics. -/
+theorem eval_tree_refines {n m c : Nat} (t : Op α n m) (X : Mat α m c) : t.eval.mm X = Mat.mul t.denseSem X :=
+  (eval_tree_denotes t).1 c X
+
+/-- The same for `_t_matmul`: it multiplies by the transpose of the dense semantics. -/
+theorem eval_tree_refines_t {n m c : Nat} (t : Op α n m) (Y : Mat α n c) :
+    t.eval.tmm Y = Mat.mul (Mat.transpose t.denseSem) Y :=
+  (eval_tree_denotes t).2 c Y
+
+/-- `toDense (structured t) = denseSem t`: the base-class default `to_dense` (multiply the identity through the
+structured code, through the transposed operator when there are fewer rows than columns) of any tree is its dense semantics. -/
+theorem toDense_tree {n m : Nat} (t : Op α n m) : t.toDense = t.denseSem :=
+  toDense_default t.eval t.denseSem (eval_tree_denotes t)
+
+/-- `x @ t` (base-class `rmatmul`, double transpose through the structured code) of any tree. -/
+theorem rmatmul_tree {n m p : Nat} (t : Op α n m) (Y : Mat α p n) : rmatmul t.eval Y = Mat.mul Y t.denseSem :=
+  rmatmul_refines t.eval t.denseSem Y (eval_tree_denotes t)
+
+/-- transposing a tree transposes its dense semantics, and `mT.mT` is the identity on semantics. -/
+theorem transpose_tree {n m : Nat} (t : Op α n m) : (Op.transpose t).denseSem = Mat.transpose t.denseSem := rfl
+
+theorem mT_mT_tree {n m : Nat} (t : Op α n m) : (Op.transpose (Op.transpose t)).denseSem = t.denseSem := rfl
+
+end treeH
+
+/-- Non-vacuity: a depth-4 tree over `Int` — `Sum(Kronecker(Masked(BlockDiag(dense…)), Diag) , ConstantMul(Root(CatRows(…))))`-like
+nesting typechecks, and the theorem applies to it. -/
+example : ∃ (t : Op Int (2 * 2) (2 * 2)), 3 ≤ t.depth ∧ ∀ (X : Mat Int (2 * 2) 1), t.eval.mm X = Mat.mul t.denseSem X :=
+  ⟨Op.sum (Op.kron (Op.transpose (Op.matmul (Op.dense fun i j => (i.1 : Int) + 2 * j.1) (Op.diag fun i => (i.1 : Int) + 1)))
+      (Op.toeplitz fun i => (3 : Int) - i.1))
+    (Op.constMul (Op.root (Op.catRows (Op.dense (n := 2) (m := 3) (fun _ j => (j.1 : Int))) (Op.dense (n := 2) (m := 3) (fun i j => (i.1 : Int) - j.1)))) 2),
+   by decide, fun X => eval_tree_refines _ X⟩
+
+end LinOp.C01
+
+/-! # part G — batch broadcasting of the structured code: structured matmul of broadcast operands = pointwise dense
+product per broadcast batch index (batch shapes of arbitrary rank; `LinOp/C01/BatchModel.lean`) -/
+namespace LinOp.C01
+open LinOp
+section batchG
+variable {α : Type} [CommSemiring α]
+
+/-- `torch.broadcast_shapes` with a common trailing block dimension: `(sA ++ [k])` against `(sB ++ [k])` broadcasts to
+`broadcast(sA, sB) ++ [k]` (and fails exactly when `sA`, `sB` do not broadcast). -/
+theorem broadcastShape_append_block (sA sB : List Nat) (k : Nat) :
+    broadcastShape (sA ++ [k]) (sB ++ [k]) = (broadcastShape sA sB).map (· ++ [k]) :=
+  broadcastShape_append_block' sA sB k
+
+/-- `expand` with a trailing block dimension reads block `b` of the restricted member (also for `k = 1`). -/
+theorem restrict_append_block (s idx : List Nat) {k b : Nat} (hb : b < k) :
+    restrict (s ++ [k]) (idx ++ [b]) = restrict s idx ++ [b] :=
+  restrict_append_block' s idx hb
+
+theorem inBox_append_block (s idx : List Nat) (k b : Nat) : InBox (s ++ [k]) (idx ++ [b]) ↔ InBox s idx ∧ b < k :=
+  inBox_append_block' s idx k b
+
+/-- **BlockDiag with batch dims** (base batch `sA ++ [k]`, the last batch dim IS the block dim; rhs batch `sB`): member
+`idx` of `_add_batch_dim → base batched matmul (broadcasting sA++[k] against sB++[k]) → _remove_batch_dim` is the dense
+block-diagonal matrix of operator member `restrict sA idx` times rhs member `restrict sB idx`; both are valid members. -/
+theorem blockDiag_broadcast_refines {m n c : Nat} (k : Nat) (sA sB out idx : List Nat) (base : BMat α m n)
+    (X : BMat α (k * n) c) (h : broadcastShape sA sB = some out) (hb : InBox out idx) :
+    blockDiagMatmulB k sA base sB X idx = Mat.mul (blockDiagDenseB k base (restrict sA idx)) (X (restrict sB idx)) ∧
+      InBox sA (restrict sA idx) ∧ InBox sB (restrict sB idx) := by
+  refine ⟨?_, restrict_inBox h hb⟩
+  have : (fun b : Fin k => matmulBroadcast Mat.mul (sA ++ [k]) base (sB ++ [k]) (addBlockDiagB k X) (idx ++ [b.1])) =
+      bmm (fun b : Fin k => base (restrict sA idx ++ [b.1])) (blockDiagAdd (X (restrict sB idx))) := by
+    funext b
+    simp only [matmulBroadcast, expandB, restrict_append_block' _ _ b.2, addBlockDiagB, bmm, List.getLastD_concat,
+      List.dropLast_concat, b.2, dite_true]
+  simp only [blockDiagMatmulB, removeBlockDiagB, this]
+  exact blockDiag_matmul _ _
+
+/-- **BlockInterleaved with batch dims**, same statement with the interleaved layout. -/
+theorem blockInter_broadcast_refines {m n c : Nat} (k : Nat) (sA sB out idx : List Nat) (base : BMat α m n)
+    (X : BMat α (n * k) c) (h : broadcastShape sA sB = some out) (hb : InBox out idx) :
+    blockInterMatmulB k sA base sB X idx = Mat.mul (blockInterDenseB k base (restrict sA idx)) (X (restrict sB idx)) ∧
+      InBox sA (restrict sA idx) ∧ InBox sB (restrict sB idx) := by
+  refine ⟨?_, restrict_inBox h hb⟩
+  have : (fun b : Fin k => matmulBroadcast Mat.mul (sA ++ [k]) base (sB ++ [k]) (addBlockInterB k X) (idx ++ [b.1])) =
+      bmm (fun b : Fin k => base (restrict sA idx ++ [b.1])) (blockInterAdd (X (restrict sB idx))) := by
+    funext b
+    simp only [matmulBroadcast, expandB, restrict_append_block' _ _ b.2, addBlockInterB, bmm, List.getLastD_concat,
+      List.dropLast_concat, b.2, dite_true]
+  simp only [blockInterMatmulB, removeBlockInterB, this]
+  exact blockInter_matmul _ _
+
+/-- **SumBatch with batch dims**: the rhs is expanded over the summed dimension, the base multiplies per member, the
+results are summed over the block dimension: member `idx` is (Σ_b base[restrict sA idx ++ [b]]) · X[restrict sB idx]. -/
+theorem sumBatch_broadcast_refines {m n c : Nat} (k : Nat) (sA sB out idx : List Nat) (base : BMat α m n)
+    (X : BMat α n c) (h : broadcastShape sA sB = some out) (hb : InBox out idx) :
+    sumBatchMatmulB k sA base sB X idx = Mat.mul (sumBatchDenseB k base (restrict sA idx)) (X (restrict sB idx)) ∧
+      InBox sA (restrict sA idx) ∧ InBox sB (restrict sB idx) := by
+  refine ⟨?_, restrict_inBox h hb⟩
+  have : (fun b : Fin k => matmulBroadcast Mat.mul (sA ++ [k]) base (sB ++ [k]) (addSumBatchB X) (idx ++ [b.1])) =
+      bmm (fun b : Fin k => base (restrict sA idx ++ [b.1])) (sumBatchAdd (X (restrict sB idx))) := by
+    funext b
+    simp only [matmulBroadcast, expandB, restrict_append_block' _ _ b.2, addSumBatchB, bmm, sumBatchAdd,
+      List.dropLast_concat]
+  simp only [sumBatchMatmulB, removeSumBatchB, this]
+  exact sumBatch_matmul _ _
+
+/-- **Any batched operator tree** (in particular a Kronecker product of any number of nested, batch-expanded factors,
+BatchRepeat-free nestings of all classes of the grammar) times a broadcast rhs: member `idx` of the structured result is
+the dense semantics of operator member `restrict sA idx` times rhs member `restrict sB idx`. -/
+theorem tree_broadcast_refines {n m c : Nat} (sA sB out idx : List Nat) (t : List Nat → Op α n m) (X : BMat α m c)
+    (h : broadcastShape sA sB = some out) (hb : InBox out idx) :
+    treeMatmulB sA t sB X idx = Mat.mul ((t (restrict sA idx)).denseSem) (X (restrict sB idx)) ∧
+      InBox sA (restrict sA idx) ∧ InBox sB (restrict sB idx) :=
+  ⟨eval_tree_refines _ _, restrict_inBox h hb⟩
+
+/-- Kronecker instance of the previous theorem: batched factors `A`, `B` (expanded to the operator batch shape `sA`),
+rhs batch `sB`: member `idx` of the view/transpose loop result is `(A[i] ⊗ B[i]) · X[j]` with `i = restrict sA idx`,
+`j = restrict sB idx`. -/
+theorem kron_broadcast_refines {m n p q c : Nat} (sA sB out idx : List Nat) (A : BMat α m n) (B : BMat α p q)
+    (X : BMat α (n * q) c) (h : broadcastShape sA sB = some out) (hb : InBox out idx) :
+    treeMatmulB sA (fun i => Op.kron (Op.dense (A i)) (Op.dense (B i))) sB X idx =
+        Mat.mul (kron2Dense (A (restrict sA idx)) (B (restrict sA idx))) (X (restrict sB idx)) ∧
+      InBox sA (restrict sA idx) ∧ InBox sB (restrict sB idx) :=
+  tree_broadcast_refines sA sB out idx _ X h hb
+
+/-- **BatchRepeat in batch-index form**: operator batch `[r*b]`, member `ρ*b + β` is `base[β]`; the column-folding code
+returns at that member `base[β] · X[ρ*b+β]`. -/
+theorem batchRepeat_batch_refines {r b n c : Nat} (B : Ten3 α b n n) (X : Ten3 α (r * b) n c) (ρ : Fin r) (β : Fin b) :
+    batchRepeatMatmul B X (pairIdx ρ β) = Mat.mul (batchRepeatDense (r := r) B (pairIdx ρ β)) (X (pairIdx ρ β)) :=
+  batchRepeat_matmul B X _
+
+/-- **Cat along a batch dimension** (`cat_dim < -2`; rhs already expanded to the output batch shape): every member of
+narrow → per-operand matmul → cat equals the member of the concatenated dense tensor times the rhs member, for every
+batch position `d` and every index whose entry `d` is within the concatenated size. -/
+theorem catBatch_refines {n m c : Nat} (d a₁ : Nat) (A₁ A₂ : BMat α n m) (X : BMat α m c) (idx : List Nat)
+    (hd : d < idx.length) :
+    catBatchMatmul d a₁ A₁ A₂ X idx = Mat.mul (catBatchDense d a₁ A₁ A₂ idx) (X idx) := by
+  simp only [catBatchMatmul, catBatchDense]
+  split
+  · rfl
+  · rename_i hlt
+    have h1 : ((idx.set d (idx.getD d 0 - a₁)).set d ((idx.set d (idx.getD d 0 - a₁)).getD d 0 + a₁)) = idx := by
+      apply List.ext_getElem
+      · simp
+      · intro i h1 h2
+        by_cases hi : d = i
+        · subst hi
+          simp [List.getD_eq_getElem?_getD, hd] at hlt ⊢
+          omega
+        · simp [hi]
+    rw [h1]
+
+end batchG
+
+/-- Non-vacuity of the hypotheses: `[2,1]` against `[3]` broadcasts to `[2,3]`; with block dim `k = 2` the base shapes
+`[2,1,2]`/`[3,2]` broadcast to `[2,3,2]`, and output member `[1,2]` reads operator member `[1,0]`, rhs member `[2]`. -/
+example : broadcastShape [2, 1] [3] = some [2, 3] ∧ broadcastShape ([2, 1] ++ [2]) ([3] ++ [2]) = some [2, 3, 2] ∧
+    InBox [2, 3] [1, 2] ∧ restrict [2, 1] [1, 2] = [1, 0] ∧ restrict [3] [1, 2] = [2] :=
+  ⟨by decide, by decide, by simp [InBox], by decide, by decide⟩
 
 end LinOp.C01
